@@ -26,6 +26,7 @@ import (
 const SiteEntropy = 0xffffffff
 
 type retained struct {
+	img       []byte // contents when it was returned
 	b         []byte
 	what      string
 	op        int
@@ -67,6 +68,8 @@ type Env struct {
 	shMS     []*big.Int
 	shRawE   [][]byte
 	shRawS   [][]byte
+	shDeepE  []uint64 // deep hashes of the shared variables (only when their types hold pointers)
+	shDeepS  []uint64
 	solo     [][]uint64
 	phase    string
 	curTask  *taskState
@@ -761,14 +764,26 @@ func rawCopy(p unsafe.Pointer, n uintptr) []byte {
 func (x *Env) sharedIntact(ts *taskState, oi int, op *Op) bool {
 	for i, e := range x.sharedE {
 		if !bytes.Equal(unsafe.Slice((*byte)(unsafe.Pointer(e)), elemSize), x.shRawE[i]) {
-			x.fail(ts, oi, op, "M-others", "shared-arg", fmt.Sprintf("shared element %d was modified", i))
+			x.fail(ts, oi, op, "M-shared", "element", fmt.Sprintf("shared element %d was modified", i))
 			return false
+		}
+		if x.shDeepE != nil {
+			if h, _ := deepHash(reflect.ValueOf(e), false); h != x.shDeepE[i] {
+				x.fail(ts, oi, op, "M-shared", "element-reachable", fmt.Sprintf("memory reachable from shared element %d (through a pointer inside it) was modified: state hidden in the value is shared with the objects that were copied from it", i))
+				return false
+			}
 		}
 	}
 	for i, sc := range x.sharedS {
 		if !bytes.Equal(unsafe.Slice((*byte)(unsafe.Pointer(sc)), scalSize), x.shRawS[i]) {
-			x.fail(ts, oi, op, "M-others", "shared-arg", fmt.Sprintf("shared scalar %d was modified", i))
+			x.fail(ts, oi, op, "M-shared", "scalar", fmt.Sprintf("shared scalar %d was modified", i))
 			return false
+		}
+		if x.shDeepS != nil {
+			if h, _ := deepHash(reflect.ValueOf(sc), false); h != x.shDeepS[i] {
+				x.fail(ts, oi, op, "M-shared", "scalar-reachable", fmt.Sprintf("memory reachable from shared scalar %d (through a pointer inside it) was modified", i))
+				return false
+			}
 		}
 	}
 	return true
@@ -1259,6 +1274,17 @@ func (x *Env) observe(ts *taskState, oi int, op *Op, recv int, recvIsE int) {
 			return
 		}
 	}
+	if x.R.Returns {
+		// a slice the library handed out belongs to the caller: unless the caller
+		// wrote into it, its contents must never change again
+		for k := range ts.rets {
+			rt := &ts.rets[k]
+			if !rt.scribbled && !bytes.Equal(rt.b, rt.img) {
+				x.fail(ts, oi, op, "M-stable", rt.what, fmt.Sprintf("the slice returned by %s at step %d has changed although the caller never wrote to it: %s when returned, %s now (the library kept using its backing array)", rt.what, rt.op, hexOf(rt.img), hexOf(rt.b)))
+				return
+			}
+		}
+	}
 	if x.R.Aux && recv >= 0 {
 		dg = (dg ^ x.aux(ts, recv, recvIsE == 1, oi)) * 0x100000001b3
 	}
@@ -1462,7 +1488,7 @@ func (x *Env) retain(ts *taskState, oi int, op *Op, what string, b []byte) bool 
 			return bad(fmt.Sprintf("the slice returned earlier by %s (op #%d)", ts.rets[i].what, ts.rets[i].op))
 		}
 	}
-	ts.rets = append(ts.rets, retained{b: b, what: what, op: oi, r: rg})
+	ts.rets = append(ts.rets, retained{b: b, img: append([]byte(nil), b...), what: what, op: oi, r: rg})
 	x.St.Retained++
 	return false
 }
@@ -1653,6 +1679,16 @@ func Exec(run *Run, ar *arena.Arena, va *arena.Vars, g *Globals, sites *SiteTabl
 	}
 	for _, sc := range x.sharedS {
 		x.shRawS = append(x.shRawS, rawCopy(unsafe.Pointer(sc), scalSize))
+	}
+	if concurrent && !PointerFree() {
+		for _, e := range x.sharedE {
+			h, _ := deepHash(reflect.ValueOf(e), false)
+			x.shDeepE = append(x.shDeepE, h)
+		}
+		for _, sc := range x.sharedS {
+			h, _ := deepHash(reflect.ValueOf(sc), false)
+			x.shDeepS = append(x.shDeepS, h)
+		}
 	}
 
 	if x.Ar != nil {
